@@ -15,6 +15,8 @@ LEVEL_NOTE = 'Trusted: clang AST with -U__SSE2__ -U__SSE__ -U__AES__ -U__SIZEOF_
 EXPLANATION = ('PORT-TYPECHECK (25 units), DRV-FPENV/DRV-RESET on K1, PORT-ROUND, PORT-LANEOPS, PORT-CVT, PORT-INT, AES-ROUND on K1, decoder rules on K1.'
          ' INT-EXEC, FP-EXEC on K1. PORT-ENDIAN on K6 (big-endian cross parse).')
 
+TECHNIQUE += '; byte-accurate abstract evaluation of the byte-order branches on a big-endian cross parse (s390x)'
+
 
 def run(ctx, R):
     F1 = portable.rule_typecheck(ctx, R, 'K1')
